@@ -324,7 +324,9 @@ func init() {
 	regInvoke("github.com/tokenized/pkg/wire.Block.GetHeader", "uninterpreted header of the block value", nil, pureUF("uf!BlockGetHeader"))
 	reg("(*github.com/tokenized/pkg/wire.BlockHeader).BlockHash", "BlockHash: uninterpreted function of the header value; result boxed", func(ms *ModSet, c *ssa.CallCommon) {
 		if c != nil {
-			ms.add(kiBox(deref(c.Signature().Results().At(0).Type())))
+			ki := kiBox(deref(c.Signature().Results().At(0).Type()))
+			ki.FreshOnly = true // the result is a new box
+			ms.add(ki)
 		}
 	}, func(fr *Frame, st *State, c *ssa.CallCommon, args []Val, res ssa.Value) Val {
 		v := fr.v
@@ -339,7 +341,9 @@ func init() {
 	})
 	reg("(*github.com/tokenized/pkg/wire.MsgTx).TxHash", "TxHash: uninterpreted function of the tx object identity+content (by reference); result boxed", func(ms *ModSet, c *ssa.CallCommon) {
 		if c != nil {
-			ms.add(kiBox(deref(c.Signature().Results().At(0).Type())))
+			ki := kiBox(deref(c.Signature().Results().At(0).Type()))
+			ki.FreshOnly = true // the result is a new box
+			ms.add(ki)
 		}
 	}, func(fr *Frame, st *State, c *ssa.CallCommon, args []Val, res ssa.Value) Val {
 		v := fr.v
